@@ -2,7 +2,7 @@
    what the implementation produced. Strings are interned by the driver (0 = empty string). The meaning of regex atoms is
    given as a finite table measured by the harness (pattern id, value id) - the model never interprets patterns. *)
 From Coq Require Import NArith List Bool.
-From OG Require Import C10.Model.
+From OG Require Import C10.Model C10.Regex.
 Import ListNotations.
 Open Scope N_scope.
 
@@ -54,13 +54,81 @@ Fixpoint check_ops (cl cn : bool) (tab : list (N * N)) (k : nat) (i : index) (os
   | o :: r => let (i', bad) := check_op cl cn tab i o in map (fun c => (k, c)) bad ++ check_ops cl cn tab (S k) i' r
   end.
 
-Definition ccase := (N * list (N * N) * list cop)%type.   (* initial generator value, atom table, ops *)
-Definition check_case (cl cn : bool) (c : ccase) : list (nat * N) :=
-  check_ops cl cn (snd (fst c)) 0 (empty_index (fst (fst c))) (snd c).
+(* ---- regex atoms through the model of the translation (Regex.v). A case carries the syntax tree of every pattern it
+   uses (pattern number -> tree), the runes of every interned string, and the rows measured on the implementation:
+   (pattern number, string id (0 = the absent tag), Go regexp's answer, the index's answer). Pattern reading 2n is the
+   index's translation of pattern n (today's or the repaired one, switch cr), reading 2n+1 is the language (Go regexp,
+   as the pruning path evaluates a regex atom). *)
+Definition pat_of (pats : list (N * re)) (n : N) : re :=
+  match find (fun x => fst x =? n) pats with Some x => snd x | None => RClass [] end.
+Definition str_of (strs : list (N * list N)) (v : N) : option (list N) :=
+  if v =? 0 then None else match find (fun x => fst x =? v) strs with Some x => Some (snd x) | None => Some [] end.
+Definition index_match (cr : bool) (r : re) (v : option (list N)) : bool :=
+  if cr then current_match r v else repaired_match r v.
+Definition model_tab (cr : bool) (pats : list (N * re)) (strs : list (N * list N)) : list (N * N) :=
+  flat_map (fun p =>
+    flat_map (fun v =>
+      (if index_match cr (snd p) (str_of strs v) then [(2 * fst p, v)] else []) ++
+      (if repaired_match (snd p) (str_of strs v) then [(2 * fst p + 1, v)] else []))
+      (0 :: map fst strs)) pats.
 
-Fixpoint mismatches_from (cl cn : bool) (k : nat) (cs : list ccase) : list (nat * nat * N) :=
+Definition arow := (N * N * bool * bool)%type.     (* pattern number, string id, Go regexp, index *)
+(* codes: 9 the model's matcher differs from Go regexp; 10 the index's answer differs from the model of the translation *)
+Fixpoint check_rows (cr : bool) (pats : list (N * re)) (strs : list (N * list N)) (k : nat) (rows : list arow) : list (nat * N) :=
+  match rows with
+  | [] => []
+  | (p, v, u, i) :: r =>
+      let t := pat_of pats p in let sv := str_of strs v in
+      (if Bool.eqb (repaired_match t sv) u then [] else [(k, 9)]) ++
+      (if Bool.eqb (index_match cr t sv) i then [] else [(k, 10)]) ++
+      check_rows cr pats strs (S k) r
+  end.
+
+(* initial generator value, pattern trees, strings, measured rows, ops *)
+Definition ccase := (N * list (N * re) * list (N * list N) * list arow * list cop)%type.
+Definition check_case (cl cn cr : bool) (c : ccase) : list (nat * N) :=
+  let '(base, pats, strs, rows, ops) := c in
+  check_ops cl cn (model_tab cr pats strs) 0 (empty_index base) ops ++ check_rows cr pats strs 1000 rows.
+
+Fixpoint mismatches_from (cl cn cr : bool) (k : nat) (cs : list ccase) : list (nat * nat * N) :=
   match cs with
   | [] => []
-  | c :: r => map (fun x => (k, fst x, snd x)) (check_case cl cn c) ++ mismatches_from cl cn (S k) r
+  | c :: r => map (fun x => (k, fst x, snd x)) (check_case cl cn cr c) ++ mismatches_from cl cn cr (S k) r
   end.
-Definition mismatches (cl cn : bool) := mismatches_from cl cn 0.
+Definition mismatches (cl cn cr : bool) := mismatches_from cl cn cr 0.
+
+(* ---- the pattern x value matrix (deterministic part of the tie): every pattern of the alphabet with the results of the
+   stages of the real translation and the rows measured on the real index *)
+Definition mrow := (option (list N) * bool * bool)%type.     (* value (None = absent tag), Go regexp, index *)
+Record mpat := mkMP { mp_ast : re; mp_final : re; mp_prefix : list N; mp_has_sfx : bool; mp_sfx : re;
+                      mp_orv : list (list N); mp_rows : list mrow }.
+Definition lsubset (a b : list (list N)) : bool := forallb (fun x => existsb (list_eqb x) b) a.
+(* stage codes (diagnostics): 20 simplify loop, 21 literal prefix / presence of a rest, 22 the rest's tree, 23 or-values.
+   row codes: 9 the model's matcher differs from Go regexp, 10 the index differs from the model of the translation *)
+Definition check_stages (p : mpat) : list N :=
+  let s := simplify (mp_ast p) in
+  let '(pre, sfx) := extract_prefix s in
+  (if re_eqb s (mp_final p) then [] else [20]) ++
+  (if list_eqb pre (mp_prefix p) && Bool.eqb (match sfx with Some _ => true | None => false end) (mp_has_sfx p) then [] else [21]) ++
+  match sfx with
+  | Some x => (if negb (mp_has_sfx p) || re_eqb x (mp_sfx p) then [] else [22]) ++
+              (if negb (mp_has_sfx p) || (lsubset (or_values x) (mp_orv p) && lsubset (mp_orv p) (or_values x)) then [] else [23])
+  | None => []
+  end.
+Fixpoint check_mrows (cr : bool) (t : re) (k : nat) (rows : list mrow) : list (nat * N) :=
+  match rows with
+  | [] => []
+  | (v, u, i) :: r =>
+      (if Bool.eqb (repaired_match t v) u then [] else [(k, 9)]) ++
+      (if Bool.eqb (index_match cr t v) i then [] else [(k, 10)]) ++ check_mrows cr t (S k) r
+  end.
+Fixpoint check_matrix (cr : bool) (k : nat) (ps : list mpat) : list (nat * nat * N) :=
+  match ps with
+  | [] => []
+  | p :: r => map (fun c => (k, 0%nat, c)) (check_stages p) ++
+              map (fun x => (k, S (fst x), snd x)) (check_mrows cr (mp_ast p) 0 (mp_rows p)) ++ check_matrix cr (S k) r
+  end.
+(* per pattern: shape class (0 literal, 1 match-all, 2 ^literal, 3 other) and whether it has position assertions *)
+Definition shape_code (r : re) : N :=
+  match shape_of r with ShLiteral => 0 | ShMatchAll => 1 | ShBeginLiteral => 2 | ShOther => 3 end.
+Definition pattern_classes (ps : list re) : list (N * bool) := map (fun r => (shape_code r, has_assert r)) ps.
